@@ -113,9 +113,12 @@ class Tokenizer:
             else:
                 string += tok.string
 
-        if (not string) and self._stack:
-            # empty params
-            return self._stack.pop()
+        if not string:
+            if self._stack:
+                # empty params
+                return self._stack.pop()
+            # empty parameter before a comma: dropped like a whitespace-only one
+            return TokenInfo(Token.WS, "", tok.start, tok.start, tok.line)
 
         assert start is not None
         assert end is not None
